@@ -254,9 +254,11 @@ PROPS = {
     ),
     "C16": dict(
         module="Evl.Props.C16",
-        theorems=["Evl.C16.key_in_force", "Evl.C16.per_event_precedence", "Evl.C16.rotation", "Evl.C16.last_wrapper_wins", "Evl.C16.deterministic"],
-        runs=[ENC_RUN], oracle_prefixes=["C16"], models=["M7 Encrypt (key material)"],
-        trusted_base=TB_COMMON, assumptions=ENC_ASSUME + ["go-kms-wrapping AEAD decrypt o encrypt = id; HKDF and HMAC-SHA256 themselves; atomicity of one value under concurrent rotation is C19's lock-set fact for encrypt.Filter"],
+        theorems=["Evl.C16.key_in_force", "Evl.C16.per_event_precedence", "Evl.C16.rotation", "Evl.C16.last_wrapper_wins", "Evl.C16.deterministic",
+                  "Evl.C16.under_material_in_force", "Evl.C16.old_or_new", "Evl.C16.atomic_on_source"],
+        runs=[ENC_RUN, race_run("encrot", 25, 400, 150)], oracle_prefixes=["C16"], models=["M7 Encrypt (key material)", "Generated.EncryptFacts"],
+        trusted_base=TB_COMMON + ["gofacts translator: EncryptFacts (Rotate / the rotation-payload branch / encrypt / hmacSha256 each use one exclusive section of Filter.l and call no method of the filter inside it) is regenerated from filters/encrypt/filter.go on every run"],
+        assumptions=ENC_ASSUME + ["go-kms-wrapping AEAD decrypt o encrypt = id; HKDF and HMAC-SHA256 themselves; a critical section of Filter.l is an atomic step (Go memory model for mutexes)"],
         rule=ENC_RULE,
     ),
     "C11": dict(
